@@ -145,9 +145,15 @@ def wf_reason(raw):
 def corpus_histories():
     """Minimised histories kept from earlier findings; they run before the random ones of every workspace-history check.
     Targets are indices into the live entities sorted by number: -1 is the entity created last."""
-    def op(k, a=0, b=0, c=0):
-        return {"k": k, "a": a, "b": b, "c": c, "uid": None}
+    def op(k, a=0, b=0, c=0, uid=None):
+        return {"k": k, "a": a, "b": b, "c": c, "uid": uid}
     return [
+        # (runs with an identifier pool) an object is detached and collected, an unrelated entity is removed through the
+        # workspace, then an object with the identifier of the detached one is created again, with other content
+        [op("create_object", 0, 0, 1, uid=0), op("add_data", 0, 0, 2), op("create_object", 0, 0, 2), op("remove_parent", 0, 0, 0), op("gc"),
+         op("remove_ws", 0, 0, 0), op("gc"), op("create_object", 0, 0, 3, uid=0), op("add_data", 0, 0, 4), op("reopen")],
+        # a small correction of stored values (within any "close enough" tolerance), written and re-read
+        [op("create_object", 0, 0, 1), op("add_data", 0, 0, 2), op("set_values", 0, 0, 1), op("reopen"), op("set_values", 0, 3, 2), op("reopen")],
         # comments of a drillhole group, removed through the workspace and through the parent
         [op("create_group", 0, 5), op("comment", 0, 1, 0), op("remove_ws", -1, 0, 0), op("reopen"), op("comment", 0, 2, 0),
          op("remove_parent", -1, 0, 0), op("gc"), op("reopen"), op("comment", 0, 3, 0), op("comment", 0, 4, 0), op("reopen")],
@@ -174,7 +180,9 @@ def run_props(ctx: Ctx, want, weights=None, n_quick=60, n_thorough=1500, max_ops
         pool = pool_arg(ctx.rng) if callable(pool_arg) else pool_arg      # identifiers the caller passes explicitly (re-used)
         uid_pool = [uuid.UUID(int=1000 + j) for j in range(pool)] if pool else None
         if i < len(corpus):
-            ops, pool, uid_pool = corpus[i], 0, None
+            ops = corpus[i]
+            pool = 2 if any(o.get("uid") is not None for o in ops) else 0
+            uid_pool = [uuid.UUID(int=1000 + j) for j in range(pool)] if pool else None
             ctx.count("corpus-histories")
         else:
             ops = wsh.gen_ops(ctx.rng, ctx.rng.randrange(*max_ops), weights=weights, pool_uids=pool)
